@@ -767,14 +767,11 @@ where
         // the recovery time budget may have been hit: repairs are inconclusive
         return "slow-recovery".to_string();
     }
-    let recovering = !matches!(rk, RecoveryKind::None);
-    if recovering && !errs.is_empty() {
-        // CPCT+ applies the first of the equally ranked repair sequences, whose order is documented
-        // as non-deterministic (it differs between two runs at one width): only the first error
-        // and its *set* of repair sequences is determined
-        s = format!("recovered tree={}", tree_is_some);
-    }
-    for e in errs.into_iter().take(if recovering { 1 } else { usize::MAX }) {
+    let _ = tree_is_some;
+    // the order of equally ranked repair sequences, and with it the repair that is applied, is a
+    // function of grammar and input: tree, every error and the ORDER of its repair sequences must be
+    // the same at every width
+    for e in errs.into_iter() {
         match e {
             LexParseError::LexError(_) => s.push_str(" lexerror"),
             LexParseError::ParseError(pe) => {
@@ -785,7 +782,7 @@ where
                     lx.span().start(),
                     lx.span().len()
                 ));
-                let mut reps: Vec<String> = pe
+                let reps: Vec<String> = pe
                     .repairs()
                     .iter()
                     .map(|seq| {
@@ -799,7 +796,6 @@ where
                             .join(",")
                     })
                     .collect();
-                reps.sort();
                 s.push_str(&format!("[{}]", reps.join(";")));
             }
         }
